@@ -203,11 +203,13 @@ def widen(J64: np.ndarray, extra, seed: int) -> np.ndarray:
 LIGHT_EXTRA = [None] * 40 + [{"k": 5000, "kind": "zero"}, {"k": 70_000, "kind": "zero"}, {"k": 5000, "kind": "gauss"}]
 
 
-def widened(strategy, light: bool = False, skip=None):
+def widened(strategy, light: bool = False, skip=None, zero_only: bool = False):
     """Wraps a case strategy: cases carrying a matrix "J" also get "extra_cols"/"xseed" (see extra_cols_strategy);
     `case_tensor` then appends the columns. Fast paths keyed on the number of columns live in helpers shared by many
     aggregators, so every matrix-based check should see some wide matrices. light=True: one case in 14 (for checks
-    that evaluate each case hundreds of times). An all-zero matrix only gets zero columns (it must stay all-zero)."""
+    that evaluate each case hundreds of times). An all-zero matrix only gets zero columns (it must stay all-zero);
+    zero_only=True for checks whose cases have a designed row geometry that Gaussian columns (scaled by the largest
+    entry) would swamp."""
 
     @st.composite
     def _s(draw):
@@ -217,7 +219,7 @@ def widened(strategy, light: bool = False, skip=None):
             extra = draw(st.sampled_from(LIGHT_EXTRA)) if light else draw(extra_cols_strategy())
             if len(case["J"]) > 64:
                 extra = None  # hundreds of rows AND 10^5 columns: the quadratic-in-m references would take minutes
-            if extra and extra["kind"] == "gauss" and not np.any(np.array(case["J"])):
+            if extra and extra["kind"] == "gauss" and (zero_only or not np.any(np.array(case["J"]))):
                 extra = dict(extra, kind="zero")
             case = dict(case, extra_cols=extra, xseed=draw(st.integers(0, 2**31 - 1)))
         return case
